@@ -200,7 +200,7 @@ def shutil_rm(p):
 
 def run(ctx):
     quick = ctx.tier == "quick"
-    nh = 160 if quick else 3000
+    nh = 320 if quick else 4000
     jobs = []
     rng = ctx.sub_rng("sizes")
     for i in range(nh):
